@@ -180,3 +180,11 @@ Theorem C12_premise_needed : forall (H : bytes -> bytes) (dflt : bytes),
     /\ enc (language_views Ex12.cm12 (langs_used [] ops)) = hx "a101820102".
 Proof. exact premise_needed. Qed.
 Print Assumptions C12_premise_needed.
+
+(* the script integrity hash of a history is that of the history without the calls that only NAME a UTxO (collateral,
+   read-only reference input) or give an output a datum hash: the cost models of a Plutus version that merely sits on such
+   a UTxO do not enter the language views *)
+Theorem C12_inert_calls : forall native ops a,
+  run_build native ops a = run_build native (filter (fun o => negb (inert o)) ops) a.
+Proof. exact inert_calls. Qed.
+Print Assumptions C12_inert_calls.
